@@ -383,3 +383,13 @@ def r04f(R):
     if not inc:
         R.fail(post, 'index += INCR', 'the post-step no longer advances the '
                'loop variable')
+
+
+@rule('R04.g', ('C04',), 'the list of names a light-iterating loop walks is '
+      'tested for None before it is measured or indexed', floor=2,
+      decides='`repeat group/location <name>` over a name that matches no '
+              'light is a loop over an empty population: zero passes, and the '
+              'enclosing loop goes on')
+def r04g(R):
+    from .c12 import lookup_checks, VMDISC
+    lookup_checks(R, (VMDISC,))
